@@ -52,6 +52,9 @@ CHECKS = {
  "C16": ("engine-b", "model_checking", B,
          "every netlist of the input space (API-built and reader-built from all three formats, bundled files) is composed to every target format under every option set (definition_list, write_blackbox, defparam, write_eblif_cname); identity-level snapshot of the whole netlist before == after with only the documented EDIF side effects masked; file stable at return; second compose and compose after all query functions byte-identical modulo the timestamp; file properly terminated",
          "bounded: see coverage.bounds_completed; a format counts as composable for an input when its composer returns normally"),
+ "C13": ("engine-b", "model_checking", B,
+         "for each naming policy a netlist with colliding sibling names (a, A, ab, a1, unnamed), EDIF identifiers and a user key with duplicate values; 13 query functions x 12 root kinds x selection x recursive x key x patterns derived from the names present (exact, case-swapped, prefix*, ?, escaped regex, pairs in both orders, repeated) x is_case x is_re x filter callback x fast lookup registered or not; every result is compared with the unfiltered result under the same key restricted by an independent match function; no element twice",
+         "one netlist per policy; exact EDIF identifiers under the EDIF policy may (not must) match case variants - the docs promise that for the fast lookup only; elements lacking the key are judged within the unfiltered result of that key"),
 }
 m = {
  "version": 1,
